@@ -9,18 +9,22 @@ def main():
     base = json.load(open("/root/.vp/BASELINE.json"))
     env = dict(os.environ)
     env.pop("CUTPLACE_VERIF", None)
+    repo = "/repo"
+    if "--repo" in sys.argv:  # self-test only: a scratch copy of the repository
+        repo = os.path.abspath(sys.argv[sys.argv.index("--repo") + 1])
+        env["PYTHONPATH"] = repo
     with tempfile.TemporaryDirectory() as tmp:
         junit = os.path.join(tmp, "junit.xml")
-        before = set(subprocess.run(["git", "-C", "/repo", "status", "--porcelain", "--untracked-files=all"],
+        before = set(subprocess.run(["git", "-C", repo, "status", "--porcelain", "--untracked-files=all"],
                                     capture_output=True, text=True).stdout.splitlines())
-        cmd = base["cmd"].replace("<file>", junit)
+        cmd = base["cmd"].replace("<file>", junit).replace("cd /repo", "cd " + repo)
         proc = subprocess.run(cmd, shell=True, env=env, capture_output=True, text=True)
-        after = subprocess.run(["git", "-C", "/repo", "status", "--porcelain", "--untracked-files=all"],
+        after = subprocess.run(["git", "-C", repo, "status", "--porcelain", "--untracked-files=all"],
                                capture_output=True, text=True).stdout.splitlines()
         # remove files the suite left behind in the work tree (untracked only)
         for line in after:
             if line not in before and line.startswith("?? "):
-                p = os.path.join("/repo", line[3:])
+                p = os.path.join(repo, line[3:])
                 if os.path.isfile(p):
                     os.remove(p)
         passed, failed = set(), set()
